@@ -520,6 +520,10 @@ func (self *Value) SetByPath(sub Node, path ...Path) (exist bool, err error) {
 
 	originLen := len(self.raw()) // root buf length
 	err = self.replace(v.Node, sub) // replace ErrorNode bytes by sub Node bytes
+	if err != nil {
+		// nothing has been replaced, the parents' byte length must stay as it is
+		return
+	}
 	isPacked := path[l-1].t == PathIndex && sub.t.IsPacked()
 	self.updateByteLen(originLen, address, isPacked, path...)
 	return
